@@ -73,7 +73,8 @@ def member(z, extra=None, timeout_ms=120000):
 def gen_points(langs, n):
     """Solver-chosen members: one query per (language, exact length); exact lengths are what z3's sequence
     solver answers in milliseconds here (open-ended length constraints took seconds)."""
-    lengths = [1, 2, 4, 7, 11, 14, 16, 17, 19, 21, 23, 24, 26, 29, 33, 38, 41, 44, 47, 52, 57, 63, 70, 80][:n]
+    lengths = [2, 80, 16, 44, 23, 57, 7, 33, 19, 47, 26, 63, 11, 38, 14, 52, 21, 70, 29, 41, 1, 4, 17, 24][:n]
+    # (no `s != previous` constraints: string disequalities made each query take seconds)
     pts = []
     s = z3.String('s')
     for z in langs:
@@ -81,9 +82,6 @@ def gen_points(langs, n):
             sol = z3.Solver()
             sol.set('timeout', 10000)
             sol.add(z3.InRe(s, z), z3.Length(s) == ln)
-            for x in pts:
-                if len(x) == ln:
-                    sol.add(s != z3.StringVal(x))
             if str(sol.check()) == 'sat':
                 w = strlang.model_string(sol.model(), s)
                 if w not in pts:
